@@ -873,7 +873,9 @@ class C17(Prop):
           'registry (act = a public action on the manager object of the enclosing block: TimeIt.end()/status(), '
           'pg.with_contextual_override wrapper called from a new thread; pg.view() inner renders are a manager; '
           'TimeIt and ContextualOverride objects are re-used; kwargs carry mutable nested dict / list values); '
-          'formerly: '
+          'detour/apply_wrappers probes create objects of 5 classes incl. one with its own __new__; extra '
+          'two-thread streams where both threads scope the SAME class and one enters and leaves (normally or '
+          'by exception) while the other is inside; formerly: '
           'registry, scope depth <= 6, arguments from each manager\'s domain (None where accepted), exceptions '
           'raised at arbitrary leaves and caught at arbitrary levels; three streams: mixed managers, '
           'focused (2-3 managers nested in every order), two-thread programs with baton hand-offs at '
@@ -884,6 +886,8 @@ class C17(Prop):
       'threading.local isolation and contextlib.contextmanager semantics (finally runs on exceptional exit) '
       'are CPython behaviour, exercised but not modelled',
       'harness adapters (harness/c17.py Lib): which public getter / behavioural probe observes each manager',
+      'the process-wide `__new__` patch of detour is modelled as World.patched (grows only); which '
+      '`__new__` CPython resolves for subclasses / super().__new__ chains (get_original_new) is not modelled',
       'modelled, not verified: the primitives of PgModel/Scope.lean (tied by T-SCOPE shape matching of every '
       'primitive and by correspondence); class detouring\'s effect on __new__ resolution, TimeIt child '
       'bookkeeping and DynamicEvaluationContext.collect/apply (compositions) are outside the model',
